@@ -48,7 +48,7 @@ impl TraitHandler for DebugUnionHandler {
 
             if let Some(name) = name {
                 builder_token_stream.extend(quote!(
-                    let mut builder = f.debug_tuple(stringify!(#name));
+                    let mut builder = f.debug_tuple(::core::stringify!(#name));
 
                     let size = ::core::mem::size_of::<Self>();
 
